@@ -1117,26 +1117,22 @@ class ConstructedPayloadDecoderBase(AbstractConstructedPayloadDecoder):
 
                                     stream = asSeekableStream(containerValue[pos].asOctets())
 
+                                    # (the captured octets are one complete
+                                    # element: no end-of-octets to expect)
                                     for component in decodeFun(stream, asn1Spec=openType,
-                                                               **dict(options, allowEoo=True)):
+                                                               **options):
                                         if isinstance(component, SubstrateUnderrunError):
                                             yield component
-
-                                        if component is eoo.endOfOctets:
-                                            break
 
                                     containerValue[pos] = component
 
                             else:
                                 stream = asSeekableStream(asn1Object.getComponentByPosition(idx).asOctets())
                                 for component in decodeFun(stream, asn1Spec=openType,
-                                                           **dict(options, allowEoo=True)):
+                                                           **options):
                                     if isinstance(component, SubstrateUnderrunError):
                                         yield component
                                         continue
-
-                                    if component is eoo.endOfOctets:
-                                        break
 
                                     asn1Object.setComponentByPosition(idx, component)
 
